@@ -277,9 +277,16 @@ class KexDH:  # pragma: nocover
     def get_hostkey_type(self) -> str:
         return self.__hostkey_type
 
+    # The coordinates of a NIST P-521 key are 521 bits long; they are stored in 66 bytes (528 bits).
+    @staticmethod
+    def __curve_size(key_type: str, size: int) -> int:
+        if key_type.startswith('ecdsa-sha2-nistp521') and size == 528:
+            size = 521
+        return size
+
     # Returns the size of the hostkey, in bits.
     def get_hostkey_size(self) -> int:
-        return KexDH.__adjust_key_size(self.__hostkey_n_len)
+        return KexDH.__curve_size(self.__hostkey_type, KexDH.__adjust_key_size(self.__hostkey_n_len))
 
     # Returns the CA type ('ssh-rsa', 'ssh-ed25519', etc).
     def get_ca_type(self) -> str:
@@ -287,7 +294,7 @@ class KexDH:  # pragma: nocover
 
     # Returns the size of the CA key, in bits.
     def get_ca_size(self) -> int:
-        return KexDH.__adjust_key_size(self.__ca_n_len)
+        return KexDH.__curve_size(self.__ca_key_type, KexDH.__adjust_key_size(self.__ca_n_len))
 
     # Returns the size of the DH modulus, in bits.
     def get_dh_modulus_size(self) -> int:
